@@ -507,11 +507,11 @@ func (data *Data) AddCmdAsOpToOpMap(op proto2.Command, newIndex uint64) {
 }
 
 func (data *Data) DBReplicaN(db string) int {
-	replicaN := data.Databases[db].ReplicaN
-	if replicaN == 0 {
+	dbi := data.Databases[db]
+	if dbi == nil || dbi.ReplicaN == 0 {
 		return 1
 	}
-	return replicaN
+	return dbi.ReplicaN
 }
 
 func (data *Data) GetReplicaN(db string) (int, bool) {
